@@ -86,7 +86,7 @@ func leaseHistories(c *vlib.Ctx, prop string, mode leasecheck.Mode, n int, stale
 func C03(c *vlib.Ctx) {
 	c.Rule("many short concurrent histories (4-16 messages, 8-32 client goroutines, 20-60 phases, batch 1-5, TTL 50ms-2s of virtual time) over direct Store calls, the Pull HTTP handler and the Worker gRPC service on one store; every client call is recorded at the client boundary (call tick / return tick from one atomic counter) and each message's sub-history is checked with porcupine against a lease-register model in exclusivity mode; the clock is frozen during a phase and moved to lease/schedule boundaries (-1ns, 0, +1ns, +10ms) between phases; the run is built with -race. distinct_nontrivial = distinct (backend, transport, operation, outcome) classes; distinct per-message operation orders are reported as distinct_op_orders.")
 	c.Assume("schedules are sampled (8 histories in flight on 16 cores, Gosched and short sleeps between client operations), not enumerated")
-	c.Assume("exclusivity mode trusts settlement outcomes (those are C04's business) and alarms only when a dequeue returns a message the model says is leased-unexpired, not due, canceled, dead or settled, or with attempt != previous+1")
+	c.Assume("exclusivity mode leaves settlement outcomes to C04 (an outcome the model cannot explain changes nothing in the register) and alarms when a dequeue returns a message the model says is leased-unexpired, not due, canceled, dead or settled, or with attempt != previous+1")
 	leaseHistories(c, "C03", leasecheck.ModeExclusivity, c.N(48, 900), 0.15)
 	c03Sequential(c)
 	c03Dispatcher(c)
